@@ -163,7 +163,7 @@ pub fn c03(j: &mut Judge, v: &StepView) {
     let bids: Vec<_> = book.bids.values().collect();
     let a = asks[j.pick(asks.len())];
     let b = bids[j.pick(bids.len())];
-    let exec = cfg.executors[j.pick(cfg.executors.len())].clone();
+    let exec = crate::gen::at(&cfg.executors, j.pick(cfg.executors.len()), "acct0");
     let rem = b.rem_base().unwrap_or(0);
     let m = a.size.min(rem);
     let mut prices: Vec<String> = vec![
@@ -337,7 +337,7 @@ pub fn c05(j: &mut Judge, v: &StepView) {
         for b in &bids {
             let s = a.size.min(b.rem_base().unwrap_or(0)).max(1);
             let msg = wire::m_match(&a.id, &b.id, &a.price, s);
-            let e = verdict_of(w, book, &cfg.executors[0], &[], &msg);
+            let e = verdict_of(w, book, &crate::gen::at(&cfg.executors, 0, "acct0"), &[], &msg);
             if e.verdict == Verdict::Accept {
                 pair = Some(msg);
                 break 'outer;
@@ -396,7 +396,7 @@ pub fn exits(j: &mut Judge, w: &World, book: &Book, origin: &str) {
             cls = "pending";
         }
         let want = model::prune(want);
-        let exec = cfg.executors[j.pick(cfg.executors.len())].clone();
+        let exec = crate::gen::at(&cfg.executors, j.pick(cfg.executors.len()), "acct0");
         for (who, msg, what) in [
             (a.owner.clone(), wire::m_cancel_ask(key), "cancel_ask"),
             (exec, wire::m_expire_ask(key), "expire_ask"),
@@ -425,7 +425,7 @@ pub fn exits(j: &mut Judge, w: &World, book: &Book, origin: &str) {
         flow_add(&mut want, CONTRACT, &b.owner, &b.quote_denom, rq);
         flow_add(&mut want, CONTRACT, &b.owner, &b.quote_denom, rf);
         let want = model::prune(want);
-        let exec = cfg.executors[j.pick(cfg.executors.len())].clone();
+        let exec = crate::gen::at(&cfg.executors, j.pick(cfg.executors.len()), "acct0");
         let cls = if b.fee.is_some() { "fee-bid" } else { "plain-bid" };
         for (who, msg, what) in [
             (b.owner.clone(), wire::m_cancel_bid(key), "cancel_bid"),
